@@ -67,8 +67,11 @@ Auth(h)     == /\ hpc[h] = "auth" /\ hpc' = [hpc EXCEPT ![h] = "gensid"]       \
                /\ UNCHANGED <<closed, store, hsid, kpc, snap, closedSocks, nextSid>>
 GenSid(h)   == /\ hpc[h] = "gensid"
                /\ hsid' = [hsid EXCEPT ![h] = nextSid] /\ nextSid' = nextSid + 1   \* unique among live sessions
-               /\ hpc' = [hpc EXCEPT ![h] = "set"]
+               /\ hpc' = [hpc EXCEPT ![h] = "announce"]
                /\ UNCHANGED <<closed, store, kpc, snap, closedSocks>>
+\* newSocket: the application's NewSocketCallback runs (may block) before the session is stored
+Announce(h) == /\ hpc[h] = "announce" /\ hpc' = [hpc EXCEPT ![h] = "set"]
+               /\ UNCHANGED <<closed, store, hsid, kpc, snap, closedSocks, nextSid>>
 StoreSet(h) == /\ hpc[h] = "set"
                /\ store' = store \cup {hsid[h]}
                /\ hpc' = [hpc EXCEPT ![h] = IF "NoRecheck" \in Dev THEN "done" ELSE "recheck"]
@@ -90,7 +93,7 @@ CloseEach == /\ kpc = "closing"
                                      /\ closedSocks' = closedSocks \cup {x} /\ kpc' = kpc
              /\ UNCHANGED <<closed, hpc, hsid, nextSid>>
 
-Next == \/ \E h \in Hs : CheckClosed(h) \/ Auth(h) \/ GenSid(h) \/ StoreSet(h) \/ Recheck(h)
+Next == \/ \E h \in Hs : CheckClosed(h) \/ Auth(h) \/ GenSid(h) \/ Announce(h) \/ StoreSet(h) \/ Recheck(h)
         \/ SetClosed \/ Snapshot \/ CloseEach
 Spec == Init /\ [][Next]_vars
 
